@@ -118,6 +118,8 @@ REACTANTS = {            # name -> (stoichiometry lines, unit amount, units word
     "O2": ([("O2", 1.0)], 1.0, "mmol"),
     "CaCO3": ([("CaCO3", 1.0)], 1.0, "mmol"),
     "H2O-": ([("H2O", -1.0)], 5.0, "moles"),
+    # withdraws more strontium than the water holds (0.1 mmol): feasible only where a solid holding Sr makes up the rest
+    "SrCl2-": ([("SrCl2", -1.0)], 0.15, "mmol"),
 }
 STEPFORMS = {            # name -> (fractions of the unit amount, INCREMENTAL_REACTIONS); "in3*": "<amount> in 3 steps"
     "1": ([1.0], False),
